@@ -383,5 +383,5 @@ func checkQRLQ(c qrlqCase) *vk.Failure {
 }
 
 func TestQRLQ(t *testing.T) {
-	vk.Run(t, "qrlq", vk.Opts{Quick: 1400, Thorough: 40000}, drawQRLQ, checkQRLQ)
+	vk.Run(t, "qrlq", vk.Opts{Quick: 4000, Thorough: 120000}, drawQRLQ, checkQRLQ)
 }
